@@ -670,6 +670,52 @@ def _run(run):
             run.oracle_violation("too-many-reads", {"family": "c-recursion", "frames": frames, "len": len(data)},
                                  "serializable.py:deserialize_value")
 
+    # ---- the PUBLIC entry point Serializable.loadb(bytes): by definition deserialize_value over a BytesIO of those bytes.
+    #      Differential oracle on a sample of all inputs plus FOREIGN-FORMAT inputs — what the library's own other writers
+    #      produce for compressible values (dumpz = gzip members; whole, truncated, bit-flipped, and their first bytes alone)
+    #      and JSON text: the same outcome as the stream decoder (value or exception type), within the same allocation bound
+    foreign = []
+    for v in (b"\x00" * (1 << 20), [b"\x00" * (1 << 20)] * 24, "a" * 100000, list(range(3000)), {"k": [0] * 2000}):
+        try:
+            import gzip as _gz           # what Serializable.dumpz does, for any value: the encoding written through gzip.open
+            _st = io.BytesIO()
+            _w = _gz.GzipFile(fileobj=_st, mode="wb", mtime=0)
+            S.serialize_value(_w, v)
+            _w.close()
+            z = _st.getvalue()
+        except Exception:       # noqa
+            z = None
+        if z:
+            foreign += [("foreign-gzip", z), ("foreign-gzip-truncated", z[: len(z) // 2]), ("foreign-gzip-magic", z[:2] + b"\x00" * 8),
+                        ("foreign-gzip-flipped", z[:-5] + bytes([z[-5] ^ 1]) + z[-4:])]
+    foreign += [("foreign-json", b'{"a": [1, 2, 3]}'), ("foreign-json-array", b"[" + b"0," * 5000 + b"0]")]
+    pub = [(c[0], c[2]) for c in cases[:: (53 if not T else 17)]] + foreign
+
+    def _outcome(f):
+        try:
+            v = f()
+            return ["value", type(v).__name__, SL.canon(SL.to_wire(v)) if not isinstance(v, (bytes, str)) or len(v) < 4096 else len(v)]
+        except Exception as e:      # noqa
+            return ["raises", type(e).__name__]
+    npub = 0
+    with SL.KeyOracle():
+        for fam, data in pub:
+            data = bytes(data)
+            a = _outcome(lambda: S.deserialize_value(io.BytesIO(data)))
+            tracemalloc.start()
+            b = _outcome(lambda: S.Serializable.loadb(data))
+            _, peak = tracemalloc.get_traced_memory()
+            tracemalloc.stop()
+            npub += 1
+            if a != b:
+                run.oracle_violation("loadb-differs-from-stream-decoder", {"family": fam, "len": len(data), "bytes": data[:300],
+                                                                           "deserialize_value": a[:2], "loadb": b[:2]}, "serializable.py:Serializable.loadb")
+            if peak > ALLOC_CONST + ALLOC_PER_BYTE * len(data):
+                run.oracle_violation("allocation-far-above-input", {"family": fam, "len": len(data), "peak": peak, "entry": "Serializable.loadb",
+                                                                    "bytes": data[:300]}, "serializable.py:Serializable.loadb")
+    run.count("public_loadb_inputs", npub)
+    run.count("foreign_format_inputs", len(foreign))
+
     # ---- measurement of allocation (tracemalloc) on a sample: peak bytes against |bs|
     sample = [c for c in cases if c[0] in ("length-full", "length-short")] + \
              [c for c in cases if c[0].startswith("nest-") and c[1] == 10000][:: 3] + \
